@@ -279,9 +279,12 @@ func handleCAP(c *Client, e Event) {
 			if !hasTLSConnection {
 				c.state.sts.beginUpgrade = true
 
+				// Handlers may use the state; don't hold the lock for them.
+				c.state.Unlock()
 				c.RunHandlers(&Event{Command: STS_UPGRADE_INIT})
 				c.debug.Println("strict transport security policy provided by server; closing connection to begin upgrade...")
 				c.Close()
+				c.state.Lock()
 				return
 			}
 		}
